@@ -32,7 +32,12 @@ DocOK(c) == (c.doc = "models" => c.target = "model" /\ c.opts = {}) /\ (c.target
 NameCases == {Case("name", "-", p, n, t, m, {}) : p \in Positions, n \in NameClasses, t \in Targets, m \in {"minimal"}}
              \cup {Case("name", "-", p, n, t, m, {}) : p \in {"definition", "property", "tag"}, n \in NameClasses, t \in {"server"}, m \in Modes}
 NameOK(c) == c.target = "model" => c.pos \in {"definition", "property", "enum"}
-AllCases == {c \in DocCases : DocOK(c)} \cup {c \in NameCases : NameOK(c)}
+\* two names at one position that a mangler may map to one Go identifier: the run must either fail with
+\* a diagnostic or leave code that builds (de-conflicted names)
+PairPositions == {"property", "parameter", "enum", "header", "tag"}
+PairClasses == {"space_dash", "case", "underscore_dash", "initialism", "punct", "digit_prefix"}
+PairCases == {Case("pair", "-", p, n, t, "minimal", {}) : p \in PairPositions, n \in PairClasses, t \in Targets}
+AllCases == {c \in DocCases : DocOK(c)} \cup {c \in NameCases : NameOK(c)} \cup {c \in PairCases : NameOK(c)}
 
 CONSTANT Sample
 VARIABLES c, phase
